@@ -8,7 +8,7 @@ from symx.check import Raised
 from symx.core import approx, zabs
 
 from . import exprs
-from .common import build, dims_of, mag_of, n_leaves, qmap, spec_str
+from .common import build, dims_of, get_db, mag_of, n_leaves, oracle_convert, qmap, seeded_sample, spec_str
 
 PID = "C03"
 FUNCTIONS = ["Scalar.__add__/__sub__/__radd__/__rsub__/_DoOperation", "UnitDatabase.Sum/Subtract/_DoOperationWithSameQuantity",
@@ -41,6 +41,19 @@ def items(tier, seed):
             out.append({"t": name, "A": a, "B": b, "op": rng.choice(["add", "sub"]) if len(pairs) >= per else "add"})
             if len(pairs) < per:
                 out.append({"t": name, "A": a, "B": b, "op": "sub"})
+    # exponent-1 operands over the whole table (affine units included): value(a+-b) = value(a) +- convert(b -> a's unit)
+    db = get_db("default")
+    allp = []
+    for qt in db.GetQuantityTypes():
+        if qt not in db.categories_to_quantity_types:
+            continue
+        us = db.GetUnits(qt)
+        allp += [(qt, u, v) for u in us for v in us]
+    simple = [("temperature", "degC", "degF"), ("temperature", "K", "degC"), ("temperature", "degF", "K"), ("temperature", "degC", "degC"),
+              ("pressure", "psig", "Pa"), ("pressure", "bar", "psig"), ("length", "m", "ft")]
+    simple += seeded_sample(allp, 300 if tier == "quick" else 6000, seed)
+    for qt, u, v in simple:
+        out.append({"t": "simple", "qt": qt, "A": ["leaf", u, qt], "B": ["leaf", v, qt], "op": rng.choice(["add", "sub"])})
     out[0]["canary"] = True
     for c in out:
         if c["t"] == "area" and c["A"] != c["B"]:
@@ -80,6 +93,17 @@ def props(cfg, T, obs):
         if obs.isa(ZeroDivisionError):
             return []  # a zero divisor while BUILDING an operand: legitimate outcome, nothing to claim
         return [("dimension-compatible +/- does not raise", False)]
+    if cfg["t"] == "simple":
+        db = get_db("default")
+        u, v = cfg["A"][1], cfg["B"][1]
+        b_in_a = oracle_convert(db, cfg["qt"], v, u, T["x1"])
+        want = T["x0"] + b_in_a if cfg["op"] == "add" else T["x0"] - b_in_a
+        sc = zabs(T["x0"]) + zabs(b_in_a) + 1
+        P = [("result is a Scalar", obs["cls"] == "Scalar"),
+             ("result has the left operand's units and categories", bool(obs["same_q"]) and obs["r"][1] == obs["A"][1]),
+             ("value(a+-b) ~ value(a) +- value(b re-expressed in a's unit)", approx(obs["r"][0], want, sc)),
+             ("(a+-b)-+b ~ a (value)", z3.And(approx(obs["back"][0], T["x0"], sc), z3.BoolVal(bool(obs["back_same_q"]))))]
+        return P
     mA, mB, mr, mback = (mag_of(*obs[k]) for k in ("A", "B", "r", "back"))
     want = mA + mB if cfg["op"] == "add" else mA - mB
     sc = zabs(mA) + zabs(mB) + 1  # rounding of each operand is relative to the operand, not to the (possibly cancelling) sum
